@@ -250,7 +250,10 @@ def shipped_models():
 
 # ------------------------------------------------------------------ values
 UINT_EDGES = [0, 1, 0xFF, 0x100, 0xFFFF, 0x10000, 0xFFFFFFFF, 0x100000000, 2**64 - 1]
-TEXTS = ['', 'a', 'hello', 'Σπυρίδων', 'naïve', '日本語', '😀', 'x' * 252, 'y' * 253, 'é' * 130]
+TEXTS = ['', 'a', 'hello', 'Σπυρίδων', 'naïve', '日本語', '😀', 'x' * 252, 'y' * 253, 'é' * 130,
+         # legal text that is not in Unicode normal form (NFC/NFKC would change it), case variants, whitespace, NUL, BOM
+         'e\u0301cole', 'A\u030angstro\u0308m', '\u2126', '\u212b', '\ufb01n', '\uf900', 'STRASSE', 'straße', ' lead', 'trail ', 'a\tb\n', 'nul\x00in', '\ufeffbom',
+         '%41', 'a=b', '/x/y']
 
 
 def gen_bytes(rng, big_ok):
